@@ -377,6 +377,7 @@ type TplDef struct {
 	Key     string
 	Src     string
 	KeepFmt bool
+	Ast     []TNode // the AST the source was printed from, when there is one (parser oracle, asttie.go)
 }
 
 // RCase is a render session: templates, then ops on one context.
@@ -551,7 +552,7 @@ func resultFields(s string) (status string, out []byte, writes string, log strin
 var (
 	intPool   = []int64{0, 1, -1, 2, 3, 5, 7, 10, 42, -17, 100, 127, 128, 255, 256, 1000, math.MaxInt32, math.MinInt32, math.MaxInt64, math.MinInt64}
 	uintPool  = []uint64{0, 1, 2, 3, 5, 10, 42, 255, 256, 65535, math.MaxUint32, math.MaxUint64}
-	floatPool = []float64{0, 1, -1, 0.5, -0.5, 2.25, 3.1415, 9000.015, -3.0000342543, 14.345241, 100, 1e6, 0.001, 123456.789}
+	floatPool = []float64{0, 1, -1, 0.5, -0.5, 2.25, 3.1415, 9000.015, -3.0000342543, 14.345241, 100, 1e6, 0.001, 123456.789, 1e-12, -2.5e-10}
 	strPool   = []string{"", "a", "b", "abc", "John", "x y", "<b>", "\"q\"", "it's", "a&b", "10", "-5", "3.5", "true", "Z", "abd", "ab", "é", "日本", "a/b?c=d"}
 )
 
